@@ -1,7 +1,7 @@
 use std::{
     any::TypeId,
     hash::Hash,
-    sync::atomic::{AtomicI32, Ordering},
+    sync::atomic::{AtomicI32, AtomicU64, Ordering},
 };
 
 use crate::{
@@ -36,6 +36,13 @@ pub struct WideColumnCache<
     tiny_lfu: TinyLFU<K, Entry<V>, PinnedLifecycleListener>,
     single_flight: single_flight::SingleFlight<K>,
 
+    /// Bumped whenever written entries are un-pinned because their batch has
+    /// reached the store. From then on such an entry may be evicted, so a
+    /// cache fill that overlaps the bump may hold a value it read from the
+    /// store before the commit and find no entry to stop it from publishing
+    /// it.
+    flush_generation: AtomicU64,
+
     _phantom: std::marker::PhantomData<T>,
 }
 
@@ -53,6 +60,7 @@ impl<K: Clone + Eq + Hash + Send + Sync + 'static, V: Send + Sync + 'static, T>
             single_flight: single_flight::SingleFlight::new(
                 default_shard_amount(),
             ),
+            flush_generation: AtomicU64::new(0),
             _phantom: std::marker::PhantomData,
         }
     }
@@ -79,6 +87,8 @@ impl<K: Eq + Hash + Clone + Send + Sync + 'static, V: Send + Sync + 'static, T>
             #[cfg(feature = "verif")]
             crate::verif::thread_point("wcc_after_miss");
 
+            let flush_generation = self.flush_generation.load(Ordering::SeqCst);
+
             // obtain the single-flight for fetching the value
             self.single_flight
                 .wait_or_work(key, || {
@@ -89,10 +99,18 @@ impl<K: Eq + Hash + Clone + Send + Sync + 'static, V: Send + Sync + 'static, T>
 
                     self.tiny_lfu.entry(key.clone(), |entry| match entry {
                         tiny_lfu::Entry::Vacant(vaccant_entry) => {
-                            vaccant_entry.insert(Entry {
-                                value,
-                                pin_count: AtomicI32::new(0),
-                            });
+                            // A write of this key may have been committed,
+                            // un-pinned and evicted since `init` read the
+                            // store; the value read would then be older than
+                            // the store. Publish nothing and read again.
+                            if self.flush_generation.load(Ordering::SeqCst)
+                                == flush_generation
+                            {
+                                vaccant_entry.insert(Entry {
+                                    value,
+                                    pin_count: AtomicI32::new(0),
+                                });
+                            }
                         }
 
                         tiny_lfu::Entry::Occupied(_) => {
@@ -183,6 +201,9 @@ impl<K: Eq + Hash + Clone + Send + Sync + 'static, V: Send + Sync + 'static, T>
         _epoch: Epoch,
         keys: impl IntoIterator<Item = K>,
     ) {
+        // must happen before any entry is un-pinned, see `get`
+        self.flush_generation.fetch_add(1, Ordering::SeqCst);
+
         for key in keys {
             let unpin = self.tiny_lfu.get_map(&key, |x| {
                 let count = x
